@@ -40,7 +40,7 @@ def _case(draw, unit):
     w = unit.get('wave') or draw(dwtu.wavelet_strategy())
     mode = unit.get('mode') or draw(st.sampled_from(dwtu.MODES5))
     L = dwtu.flen(w)
-    J = draw(st.sampled_from([1, 1, 2, 2, 3, 4]))
+    J = draw(st.sampled_from([1, 1, 2, 2, 3, 4, 4, 6, 8]))          # deeper than pywt.dwt_max_level happens too
     large = draw(st.integers(0, 19)) == 0         # 5%: sizes far beyond the usual caps (dense checks + column subset)
     if dim == 1:
         size = [draw(dwtu.size_strategy(L, J, cap=2048 if large else max(96, min(2 * L + 8, 160))))]
@@ -142,7 +142,7 @@ def _module(case):
     cls = DWT1DForward if case['dim'] == 1 else DWTForward
     msp = case.get('mode_spelling', case['mode'])
     with dwtu.default_dtype(dwtu.tdt(case['dtype'])):
-        sib = dwtu.sibling(case['wave']) if (case.get('reused') and not case.get('wave_row')) else None
+        sib = dwtu.sibling(case['wave']) if (case.get('reused') and not case.get('wave_row') and case['mode'] != 'reflect') else None
         if sib is None:
             wa = wave_arg(case)
             m = cls(J=case['J'], wave=wa, mode=msp)
